@@ -89,6 +89,10 @@ pub struct ZoneData {
 
 pub struct World {
     pub zones: Vec<ZoneData>, // root first, deepest last
+    /// A root zone signed by an attacker's key whose key tag and algorithm
+    /// equal those of the configured trust anchor (the 16-bit tag is easy to
+    /// hit by choosing the flags field), holding forged data.
+    pub evil_root: Option<ZoneData>,
     pub trust_anchor_text: String,
     pub inception: u32,
     pub expiration: u32,
@@ -102,6 +106,26 @@ fn make_key(owner: &str, _seed_byte: u8) -> (SigningKey<Bytes, KeyPair>, Dnskey<
     let (secret, dnskey) = domain::crypto::sign::generate(&domain::crypto::sign::GenerateParams::EcdsaP256Sha256, 257).expect("generate key");
     let pair = KeyPair::from_bytes(&secret, &dnskey).expect("keypair");
     (SigningKey::new(sname(owner), 257, pair), dnskey)
+}
+
+/// A fresh key for `owner` whose key tag equals `tag`: the tag is a 16-bit
+/// checksum over the DNSKEY rdata, which includes the 16-bit flags field, so
+/// a suitable value of the flags (ZONE bit kept, REVOKE clear) exists for
+/// about every other key.
+fn make_key_with_tag(owner: &str, tag: u16) -> Option<(SigningKey<Bytes, KeyPair>, Dnskey<Vec<u8>>)> {
+    for _ in 0..64 {
+        let (secret, dnskey) = domain::crypto::sign::generate(&domain::crypto::sign::GenerateParams::EcdsaP256Sha256, 257).expect("generate key");
+        for flags in (0x0100u16..=0xFFFF).filter(|f| f & 0x0100 != 0 && f & 0x0080 == 0) {
+            let cand: Dnskey<Vec<u8>> = Dnskey::new(flags, dnskey.protocol(), dnskey.algorithm(), dnskey.public_key().clone()).expect("dnskey");
+            if cand.key_tag() == tag {
+                // (The key pair carries the flags: RRSIG key tags are
+                // derived from the pair's own DNSKEY.)
+                let pair = KeyPair::from_bytes(&secret, &cand).expect("keypair");
+                return Some((SigningKey::new(sname(owner), flags, pair), cand));
+            }
+        }
+    }
+    None
 }
 
 fn ds_text(owner: &str, dnskey: &Dnskey<Vec<u8>>) -> String {
@@ -273,8 +297,19 @@ host.unsigned.tld. 300 IN TXT \"insecure\"\n";
         let rec: Record<SName, Dnskey<Vec<u8>>> = Record::new(sname("."), Class::IN, Ttl::from_secs(3600), dk.clone());
         format!("{}", rec.data())
     };
+    let evil_root = make_key_with_tag(".", root_key.1.key_tag()).map(|k| {
+        build_zone(
+            ".",
+            ". 3600 IN SOA a.root. admin.root. 1 7200 3600 86400 300\n. 3600 IN NS a.root.\na.root. 3600 IN A 203.0.113.66\nother. 3600 IN TXT \"forged by the holder of a colliding key\"\n",
+            Some(&k),
+            Denial::Nsec,
+            inception,
+            expiration,
+        )
+    });
     World {
         zones,
+        evil_root,
         trust_anchor_text: format!(". 3600 IN DNSKEY {}", b64),
         inception,
         expiration,
@@ -773,6 +808,28 @@ impl World {
         r.answer.extend(tail.answer);
         r.authority = tail.authority;
         Some(r)
+    }
+
+    /// The forged answer from the attacker's root zone, if it has one.
+    pub fn forged_root_answer(&self, qname: &str, qtype: Rtype) -> Option<Resp> {
+        let z = self.evil_root.as_ref()?;
+        let mut r = Resp::default();
+        if z.push_set(&mut r.answer, &qname.to_ascii_lowercase(), qtype, None) {
+            Some(r)
+        } else {
+            None
+        }
+    }
+
+    /// The attacker's (self-signed) root DNSKEY RRset.
+    pub fn evil_root_dnskey(&self) -> Option<Resp> {
+        let z = self.evil_root.as_ref()?;
+        let mut r = Resp::default();
+        if z.push_set(&mut r.answer, ".", Rtype::DNSKEY, None) {
+            Some(r)
+        } else {
+            None
+        }
     }
 
     /// Insert the stale RRSIG of one RRset of the response before its valid
